@@ -19,6 +19,21 @@ ZERO = Expression(INTEGER, [0])
 ONE = Expression(INTEGER, [1])
 
 
+def _checked_integer(integer):
+    """Integers of an expression must be representable in a command array"""
+    if not -2**63 <= integer < 2**63:
+        raise OverflowError("integer does not fit in a command array")
+    return integer
+
+
+def _checked_integer_power(base, exponent):
+    # |base|**exponent >= 2**((bit_length - 1) * exponent): do not even compute
+    # an astronomically large power
+    if (abs(base).bit_length() - 1) * exponent > 63:
+        raise OverflowError("integer does not fit in a command array")
+    return _checked_integer(base**exponent)
+
+
 def automatic_simplify(expression):
     """A recursive simplification of an expression
 
@@ -68,7 +83,9 @@ def _simplify_constant_power(base, exponent):
 
     if base.operator == INTEGER and exponent.operator == INTEGER \
             and exponent.operands[0] > 0:
-        return Expression(INTEGER, [base.operands[0]**exponent.operands[0]])
+        return Expression(INTEGER,
+                          [_checked_integer_power(base.operands[0],
+                                                  exponent.operands[0])])
 
     if base.operator == POWER and exponent.operator == INTEGER:
         # multiply powers: (b^m)^n = b^(m*n) holds for integer n only
@@ -109,7 +126,8 @@ def _simplify_product_rec(operands):
     if len(operands) == 2:
         op_1, op_2 = operands
         if op_1.operator == INTEGER and op_2.operator == INTEGER:
-            new_integer = op_1.operands[0] * op_2.operands[0]
+            new_integer = _checked_integer(op_1.operands[0]
+                                           * op_2.operands[0])
             simpl_const_prod = Expression(INTEGER, [new_integer])
             if simpl_const_prod.is_one():
                 return []
@@ -196,7 +214,8 @@ def _simplify_sum_rec(operands):
     if len(operands) == 2:
         op_1, op_2 = operands
         if op_1.operator == INTEGER and op_2.operator == INTEGER:
-            new_integer = op_1.operands[0] + op_2.operands[0]
+            new_integer = _checked_integer(op_1.operands[0]
+                                           + op_2.operands[0])
             simpl_const_sum = Expression(INTEGER, [new_integer])
             if simpl_const_sum.is_zero():
                 return []
